@@ -40,7 +40,7 @@ class Order:
             return self.of(e.generators[0].iter, fn, ci, depth + 1, seen)
         if isinstance(e, ast.Starred):
             return self.of(e.value, fn, ci, depth + 1, seen)
-        if isinstance(e, ast.BinOp) and isinstance(e.op, (ast.Add, ast.BitOr)):
+        if isinstance(e, ast.BinOp) and isinstance(e.op, (ast.Add, ast.BitOr, ast.Sub, ast.BitAnd, ast.BitXor)):
             return self.join([self.of(e.left, fn, ci, depth + 1, seen), self.of(e.right, fn, ci, depth + 1, seen)])
         if isinstance(e, ast.Call):
             cn = dotted(e.func) or ""
@@ -59,6 +59,9 @@ class Order:
                 return self.join(self.of(a, fn, ci, depth + 1, seen) for a in e.args)
             if isinstance(e.func, ast.Attribute) and e.func.attr in ("values", "keys", "items", "copy"):
                 return self.of(e.func.value, fn, ci, depth + 1, seen)
+            if isinstance(e.func, ast.Attribute) and e.func.attr in ("difference", "union", "intersection", "symmetric_difference"):
+                self.trace.append(f"`{norm_text(e, 40)}` (set API)")
+                return UNORDERED
             return UNKNOWN
         if isinstance(e, ast.Name):
             key = ("n", id(fn), e.id)
@@ -100,7 +103,15 @@ class Order:
                 for n in ast.walk(f):
                     if isinstance(n, ast.Assign) and any(unparse(t) == f"self.{name}" for t in n.targets):
                         vals.append(self.of(n.value, f, c, depth + 1, seen))
+                    if isinstance(n, ast.AugAssign) and unparse(n.target) == f"self.{name}" and isinstance(n.op, (ast.Add, ast.BitOr)):
+                        vals.append(self.of(n.value, f, c, depth + 1, seen))
                     if isinstance(n, ast.Call) and isinstance(n.func, ast.Attribute) and unparse(n.func.value) == f"self.{name}":
+                        if n.func.attr in ("append", "insert") and n.args:
+                            # elements arrive in the order of the enclosing loops
+                            for lp in [a for a in ancestors(n) if isinstance(a, ast.For)]:
+                                if lp is f:
+                                    break
+                                vals.append(self.of(lp.iter, f, c, depth + 1, seen))
                         if n.func.attr in ("update", "extend") and n.args:
                             vals.append(self.of(n.args[0], f, c, depth + 1, seen))
                         if n.func.attr in ("add", "discard"):
@@ -270,6 +281,11 @@ ORDER_SINKS = [
     ("scenic.core.lazy_eval", "LazilyEvaluable.__init__", "self._dependencies", "a value's dependencies are sampled in this order"),
 ]
 
+# attributes (all writers of the class are followed) whose element order is observable
+ORDER_SINK_ATTRS = [
+    ("scenic.core.simulators", "Simulation", "agents", "the default schedule runs the agents' behaviours, and so their random draws and actions, in this order"),
+]
+
 # Functions that may draw from the GLOBAL generators (the user-visible random stream).
 GLOBAL_RNG_OK = {"sampleGiven", "uniformPointInner", "genericSampler", "sampler", "appliedTo", "_generateInner"}
 GLOBAL_RNG_FROZEN = {
@@ -308,7 +324,22 @@ def check_sinks(ctx, R="C15.sinks"):
                 )
             else:
                 ctx.ok(R, a, f"{q}: {attr} = `{norm_text(a.value, 50)}` has a program-defined order ({r})")
-    ctx.floor(R, n, 3, "order sinks")
+    for mod, cname, attr, why in ORDER_SINK_ATTRS:
+        ci = model.cls(mod, cname)
+        n += 1
+        o = Order(model)
+        r = o.attr(ci, attr, 0, set())
+        if r == UNORDERED:
+            ctx.finding(
+                R,
+                ci.node,
+                f"{cname}.{attr} unordered",
+                f"{cname}.{attr} receives elements in a hash / memory-layout order ({' <- '.join(dict.fromkeys(o.trace))}); {why}, so the same program and seed give different "
+                f"simulation results in different processes",
+            )
+        else:
+            ctx.ok(R, ci.node, f"{cname}.{attr} is only ever extended in a program-defined order ({r})")
+    ctx.floor(R, n, 4, "order sinks")
     PRE = ("random.", "numpy.random.", "np.random.", "trimesh.sample.")
     NOT_DRAWS = ("getstate", "setstate", "get_state", "set_state", "default_rng", "seed", "Random", "RandomState", "Generator")
     nd = 0
